@@ -94,6 +94,8 @@ def _halve(x):
 
 def real_data(cfg):
     T, D = cfg.get("T", 8), cfg.get("D", 2)
+    if cfg.get("real_const") is not None:
+        return np.full((T, D), float(cfg["real_const"]))
     rng = np.random.default_rng(4242)
     return 0.5 + 0.1 * rng.standard_normal((T, D))
 
